@@ -52,6 +52,19 @@ def build_drv(profile='dev-like', quiet=True):
                 seconds=time.time() - t0, profile=profile)
 
 
+def build_asan_replay():
+    """the replay binary under AddressSanitizer (nightly, -Zbuild-std, same dev-like profile): used to
+    confirm memory errors, which a plain native run cannot show"""
+    tdir = os.path.join(BUILD, 'asan')
+    env = dict(os.environ, CARGO_TARGET_DIR=tdir, RUSTFLAGS='-Zsanitizer=address', CARGO_NET_OFFLINE='true')
+    env.pop('RUSTUP_TOOLCHAIN', None)
+    r = sh(['cargo', '+nightly', 'build', '--release', '--offline', '-Zbuild-std=core,alloc,std,panic_abort',
+            '--target', 'x86_64-unknown-linux-gnu', '--bin', 'replay'], cwd=DRV, env=env)
+    if r.returncode != 0:
+        raise Broken("ASan replay build failed:\n" + r.stderr[-2000:])
+    return os.path.join(tdir, 'x86_64-unknown-linux-gnu', 'release', 'replay')
+
+
 _MOD = {}
 
 
